@@ -7,8 +7,12 @@ git apply "$P" || { echo "patch does not apply"; exit 9; }
 trap 'git -C /repo checkout -- . ; git -C /repo clean -fdq compiler runtime 2>/dev/null' EXIT
 cd /verif
 for id in "$@"; do
+  # the evidence file of a run on a SEEDED tree must never stay behind (it would be committed as if it were a record of /repo)
+  cp evidence/$id.json /tmp/try_seed_evidence_$id.json 2>/dev/null
   ./check "$id" --tier "${TIER:-quick}" > /tmp/try_seed_$id.log 2>&1
-  echo "== $id exit $? : $(grep -c '^VIOLATION' /tmp/try_seed_$id.log) VIOLATION lines"
+  rc=$?
+  if [ -f /tmp/try_seed_evidence_$id.json ]; then mv /tmp/try_seed_evidence_$id.json evidence/$id.json; else rm -f evidence/$id.json; fi
+  echo "== $id exit $rc : $(grep -c '^VIOLATION' /tmp/try_seed_$id.log) VIOLATION lines"
   grep '^VIOLATION' /tmp/try_seed_$id.log | head -3 | cut -c1-250
   tail -1 /tmp/try_seed_$id.log | cut -c1-250
 done
